@@ -96,6 +96,8 @@ fn main() {
                     "unit" => run_history::<Unit>(id, &ops, &ctx, &mut w),
                     "zd" => run_history::<Zd>(id, &ops, &ctx, &mut w),
                     "w24" => run_history::<W24>(id, &ops, &ctx, &mut w),
+                    "b1" => run_history::<B1>(id, &ops, &ctx, &mut w),
+                    "pn" => run_history::<Pn>(id, &ops, &ctx, &mut w),
                     other => panic!("unknown element type {other}"),
                 }
                 w.flush().unwrap();
